@@ -160,3 +160,28 @@ package val
 //@ func (*Val).Key
 //@   props C18
 //@   abstract
+
+// function tables of an environment: lookups write nothing (C03: the VM
+// compiler, the closure compiler and the interpreter resolve a call through
+// the same lookup)
+//@ func (*Env).GetMonoFun
+//@   props C03
+//@   requires e != nil
+//@   nopanic
+//@   pure
+
+//@ func (*Env).MustGetMonoFun
+//@   props C03
+//@   requires e != nil
+//@   pure
+
+//@ func (*Env).GetPolyFuns
+//@   props C03
+//@   requires e != nil
+//@   nopanic
+//@   pure
+
+//@ func (*Env).MustGetPolyFuns
+//@   props C03
+//@   requires e != nil
+//@   pure
